@@ -192,6 +192,7 @@ class Binding(TypedExpression):
         )
 
         name: str | None = None
+        attrpath_segments: list[str] = []
         value: Any | None = None
         value_node: Node | None = None
 
@@ -217,6 +218,20 @@ class Binding(TypedExpression):
                 continue
             elif child.text and child.type == "attrpath":
                 name = child.text.decode()
+                # The parser already knows where the separating dots are;
+                # re-scanning the text would have to understand every string
+                # form that can occur inside a `${ … }` segment.
+                raw = child.text
+                cuts = [
+                    dot.start_byte - child.start_byte
+                    for dot in child.children
+                    if dot.type == "."
+                ]
+                bounds = [-1, *cuts, len(raw)]
+                attrpath_segments = [
+                    raw[start + 1 : end].decode().strip()
+                    for start, end in zip(bounds, bounds[1:])
+                ]
                 prev_content = child
             elif child.type == "comment":
                 comment = Comment.from_cst(child)
@@ -252,7 +267,10 @@ class Binding(TypedExpression):
         if equals_token is not None and value_node is not None:
             value_gap = gap_between(node, equals_token, value_node)
 
-        segments = _split_attrpath(name)
+        if attrpath_segments and all(attrpath_segments):
+            segments = attrpath_segments
+        else:
+            segments = _split_attrpath(name)
         if len(segments) > 1:
             from nix_manipulator.expressions.set import AttributeSet
 
